@@ -25,7 +25,7 @@ TOL = "(1#131072)"          # 2^-17: float32 rescale / scale arithmetic vs exact
 
 # ------------------------------------------------------------------------------------------ helpers
 
-CTX = {"latent": None, "pin": True, "seed": 0}      # per-case context set by run_impl
+CTX = {"latent": None, "pin": True, "seed": 0, "maskdtype": None}      # per-case context set by run_impl
 
 
 def small_cfg(kind="vec"):
@@ -168,18 +168,53 @@ def torch_uniform_script(by_shape):
     return patched((torch, "rand_like", rand_like), (torch, "rand", rand), (torch.Tensor, "uniform_", uniform_))
 
 
+MASK_DTYPES = {"int8": np.int8, "uint8": np.uint8, "bool": np.bool_, "float32": np.float32, "float64": np.float64, "int64": np.int64}
+
+
+def as_mask(x):
+    """a 0/1 mask in the numeric type the environment happens to use (CTX["maskdtype"])"""
+    a = np.array(x)
+    return a.astype(MASK_DTYPES[CTX["maskdtype"]]) if CTX.get("maskdtype") else a
+
+
 def mask_array(rows, single, fmt=None):
     """mask argument as the callers pass it: (n,) for one observation, (B, n) array, or an object array of B arrays"""
     if rows is None:
         return None
     if single:
-        return np.array(rows[0])
+        return as_mask(rows[0])
     if fmt == "object":
         m = np.empty(len(rows), dtype=object)
         for r, row in enumerate(rows):
-            m[r] = np.array(row)
+            m[r] = as_mask(row)
         return m
-    return np.array(rows)
+    return as_mask(rows)
+
+
+def snapshot(x):
+    """deep, comparable copy of a caller-owned argument"""
+    if isinstance(x, dict):
+        return {k: snapshot(v) for k, v in x.items()}
+    if isinstance(x, (list, tuple)):
+        return [snapshot(v) for v in x]
+    if isinstance(x, np.ndarray):
+        return ("nd", str(x.dtype), x.shape, [snapshot(v) for v in x] if x.dtype == object else x.copy())
+    if isinstance(x, torch.Tensor):
+        return ("t", x.detach().clone())
+    return x
+
+
+def same(a, b):
+    if isinstance(a, dict):
+        return isinstance(b, dict) and list(a) == list(b) and all(same(a[k], b[k]) for k in a)
+    if isinstance(a, list):
+        return isinstance(b, list) and len(a) == len(b) and all(same(x, y) for x, y in zip(a, b))
+    if isinstance(a, tuple) and a and a[0] == "nd":
+        return isinstance(b, tuple) and a[1:3] == b[1:3] and (same(a[3], b[3]) if isinstance(a[3], list)
+                                                              else np.array_equal(a[3], b[3], equal_nan=a[3].dtype.kind == "f"))
+    if isinstance(a, tuple) and a and a[0] == "t":
+        return isinstance(b, tuple) and a[1].shape == b[1].shape and a[1].dtype == b[1].dtype and torch.equal(a[1], b[1])
+    return a is b or a == b
 
 
 def fl(x):
@@ -325,6 +360,16 @@ class C14(vlib.Driver):
         """call get_action on what the caller holds (the agent or its wrapper); arguments by keyword, as the training
         loops and test() pass them, or positionally in signature order (case["args"] == "pos")"""
         callee = getattr(self, "_callee", None) or ag
+        before = {"obs": snapshot(obs), **{n: snapshot(v) for n, v in named.items()}}
+        live = {"obs": obs, **named}
+        try:
+            return self.act_(callee, ag, obs, named)
+        finally:
+            for n, b in before.items():
+                if not same(b, snapshot(live[n])) and n not in self._argmod:
+                    self._argmod.append(n)
+
+    def act_(self, callee, ag, obs, named):
         if getattr(self, "_argstyle", "kw") == "min":       # rely on the defaults of get_action wherever the value is the default
             dflt = {"epsilon": 0.0, "action_mask": None, "training": True, "infos": None}     # the DOCUMENTED defaults
             named = {n: v for n, v in named.items()
@@ -398,7 +443,72 @@ class C14(vlib.Driver):
         cases += self.gen_audit(cases, tier, rng)
         cases += self.gen_nondyadic(tier, rng)
         cases += self.gen_offsets(tier, rng)
+        cases += self.gen_round4(cases, tier, rng)
         return cases
+
+    def gen_round4(self, prev, tier, rng):
+        """mask dtypes, extreme but legal magnitudes, repeated identical calls (the arguments-not-modified oracle runs on every case)"""
+        out = []
+        fresh = [c for c in prev if not c.get("hist") and not c.get("wrap") and c.get("args", "kw") == "kw" and c.get("pin", True)
+                 and not c.get("korder") and "offset" not in c]
+
+        def take(pred, k, stride=13):
+            pool = [c for c in fresh if pred(c)]
+            return [dict(pool[(i * stride + 5) % len(pool)]) for i in range(k)] if pool else []
+        per = 2 if tier == "quick" else 6
+        masked = {"dqn": lambda c: c["fam"] == "dqn" and c["masks"] is not None, "rainbow": lambda c: c["fam"] == "rainbow" and c["masks"] is not None,
+                  "cqn": lambda c: c["fam"] == "cqn" and c["masks"] is not None, "ucb": lambda c: c["fam"] == "ucb" and c["mask"] is not None,
+                  "ts": lambda c: c["fam"] == "ts" and c["mask"] is not None, "ppo_disc": lambda c: c["fam"] == "ppo_disc" and c["masks"] is not None,
+                  "ippo": lambda c: c["fam"] == "ippo" and c["masks"] is not None,
+                  "maddpg_disc": lambda c: c["fam"] == "maddpg_disc" and c["masks"] is not None,
+                  "matd3_disc": lambda c: c["fam"] == "matd3_disc" and c["masks"] is not None}
+        for name, pred in masked.items():
+            for dt in ("int8", "uint8", "bool", "float32", "float64"):
+                for c in take(pred, per):
+                    c["maskdtype"] = dt
+                    out.append(c)
+        # extreme magnitudes of the value function: +-1e6 offsets, +-1e37 scales
+        for n in (2, 3, 4):
+            pats = tie_patterns(n)
+            for mi, m in enumerate(all_masks(n)):
+                if mi % 2 and tier == "quick":
+                    continue
+                for vi, tr in enumerate((lambda v: v + 1e6, lambda v: v - 1e6, lambda v: v * 1e37, lambda v: -v * 1e37 - 1e37)):
+                    q = [float(np.float32(tr(v))) for v in pats[(mi + vi) % len(pats)]]
+                    u = draws_for(m, rng, "adversarial")
+                    out.append({"fam": "dqn", "obs": "vec", "single": False, "n": n, "q": q, "masks": [m], "eps": [0.0, 0.5, 1.0][(mi + vi) % 3],
+                                "coins": [[0.0, 0.25, 0.75][vi % 3]], "u": [u], "oseed": rng.randrange(10 ** 6), "extreme": True})
+                    out.append({"fam": "cqn", "obs": "vec", "single": False, "n": n, "q": q, "masks": [m], "eps": [0.0, 0.5, 1.0][(mi + vi) % 3],
+                                "coin": [0.0, 0.25, 0.75][vi % 3], "u": [u], "r": [0], "oseed": rng.randrange(10 ** 6), "extreme": True})
+                    out.append({"fam": "rainbow", "obs": "vec", "single": bool(vi % 2), "n": n, "vals": [q], "masks": [m], "training": bool(mi % 2),
+                                "oseed": rng.randrange(10 ** 6), "extreme": True})
+                    out.append({"fam": ["ucb", "ts"][vi % 2], "n": n, "vals": q, "mask": m, "oseed": rng.randrange(10 ** 6), "extreme": True})
+        # extreme logits of masked stochastic heads (differences 0 or 2e4: far from the underflow gap)
+        for n in (2, 3, 4):
+            for m in all_masks(n)[::2]:
+                lg = [[1e4, -1e4, 0.0, 1e4][(j + len(m)) % 4] for j in range(n)]
+                out.append({"fam": "ppo_disc", "space": "discrete", "nvec": [n], "logits": lg, "masks": [m, [1] * n], "single": False,
+                            "training": False, "seeds": 8, "oseed": rng.randrange(10 ** 6), "extreme": True})
+        # Gaussian head with log-std outside [-20, 2]; huge exploration noise
+        for bname in ("asym", "perdim", "f64"):
+            for ls in (-30.0, 3.0, 10.0):
+                for squash in (False, True):
+                    d = len(self.BOXES[bname])
+                    out.append({"fam": "ppo_box", "box": bname, "squash": squash, "training": False, "single": False, "obs": "vec", "B": 2,
+                                "loc": [rng.choice([-6.0, 0.0, 3.0]) for _ in range(d)], "log_std": ls,
+                                "z": [[rng.choice([-4.0, -0.5, 0.0, 1.0, 4.0]) for _ in range(d)] for _ in range(2)],
+                                "oseed": rng.randrange(10 ** 6), "extreme": True})
+            for fam in ("ddpg", "td3"):
+                d = len(self.BOXES[bname])
+                out.append({"fam": fam, "box": bname, "act": "Tanh", "pre": [30.0, -30.0, 0.0][:d], "training": True, "ou": fam == "td3",
+                            "noise": [[1e30, -1e30, 1e-30][:d], [-1e30, 1e30, 0.0][:d]], "single": False, "B": 2, "obs": "vec",
+                            "oseed": rng.randrange(10 ** 6), "extreme": True})
+        # identical inputs in consecutive calls
+        for fam in ("dqn", "rainbow", "cqn", "ucb", "ddpg", "td3", "maddpg_cont", "matd3_disc", "maddpg_disc", "ppo_box", "ppo_disc", "ippo"):
+            for c in take(lambda c, fam=fam: c["fam"] == fam, per, stride=29):
+                c["twice"] = True
+                out.append(c)
+        return out
 
     def gen_nondyadic(self, tier, rng):
         """Box spaces (float64 and float32) whose bounds are not float32-representable / not dyadic, a saturated policy and
@@ -878,16 +988,30 @@ class C14(vlib.Driver):
         self._wrap = case.get("wrap")
         self._argstyle = case.get("args", "kw")
         self._applied = []
-        CTX.update(latent=case.get("latent"), pin=case.get("pin", True), seed=case.get("oseed", 0))
+        CTX.update(latent=case.get("latent"), pin=case.get("pin", True), seed=case.get("oseed", 0), maskdtype=case.get("maskdtype"))
+        self._argmod = []
         try:
             obs = getattr(self, "run_" + case["fam"].split("_")[0])(case)
         finally:
             self._hist = self._wrap = None
             self._argstyle = "kw"
-            CTX.update(latent=None, pin=True)
+            CTX.update(latent=None, pin=True, maskdtype=None)
             self._callee = None
         if case.get("hist"):
             obs["hist_applied"] = list(self._applied)
+        if self._argmod:
+            obs["args_modified"] = list(self._argmod)
+        if case.get("twice") and "error" not in obs:          # identical inputs in consecutive calls on the same object
+            self._hist, self._wrap, self._argstyle = case.get("hist"), case.get("wrap"), case.get("args", "kw")
+            CTX.update(latent=case.get("latent"), pin=case.get("pin", True), seed=case.get("oseed", 0), maskdtype=case.get("maskdtype"))
+            try:
+                o2 = getattr(self, "run_" + case["fam"].split("_")[0])(case)
+            finally:
+                self._hist = self._wrap = None
+                self._argstyle = "kw"
+                CTX.update(latent=None, pin=True, maskdtype=None)
+            k = "actions" if "actions" in obs else "action"
+            obs["repeat_equal"] = ("error" not in o2) and o2.get(k) == obs.get(k)
         return obs
 
     def call(self, f):
@@ -1020,7 +1144,7 @@ class C14(vlib.Driver):
         cls = {"ucb": NeuralUCB, "ts": NeuralTS}[fam]
         ag = self.agent((fam, n), lambda: self.make(cls, spaces.Box(-1, 1, (4,), np.float32), spaces.Discrete(n), net_config=small_cfg()))
         ctx = np.random.RandomState(case["oseed"]).uniform(-1, 1, (n, 4)).astype(np.float32)
-        mask = None if case["mask"] is None else np.array(case["mask"])
+        mask = None if case["mask"] is None else as_mask(case["mask"])
         with wrap_forward(ag.actor, replace=[[v] for v in case["vals"]]) as rec:
             out, err = self.call(lambda: self.act(ag, ctx, action_mask=mask))
         if err:
@@ -1100,7 +1224,7 @@ class C14(vlib.Driver):
         if kind == "disc" and case["masks"] is not None:
             for i, a in enumerate(self.MA_IDS):
                 if case["masks"][i] is not None:
-                    infos[a]["action_mask"] = np.array(case["masks"][i][0] if case["single"] else case["masks"][i])
+                    infos[a]["action_mask"] = as_mask(case["masks"][i][0] if case["single"] else case["masks"][i])
         if case["eda"] is not None:
             for i, a in enumerate(self.MA_IDS):
                 rows = case["eda"][i]
@@ -1171,6 +1295,9 @@ class C14(vlib.Driver):
                 return self.make(PPO, obs_space_of(okind), np_box(box), net_config=cfg, share_encoders=False)
             ag = self.agent(("ppo_box", bname, sq, okind), build)
             pin(ag.actor, case["loc"])
+            if case.get("log_std") is not None:               # extreme but legal spread of the Gaussian head
+                with torch.no_grad():
+                    ag.actor.head_net.log_std.fill_(case["log_std"])
             ag.set_training_mode(case["training"])
             obs = make_obs(okind, B, case["single"], random.Random(case["oseed"]))
             rec = []
@@ -1239,7 +1366,7 @@ class C14(vlib.Driver):
         if case["masks"] is not None:
             infos = {"b_0": {}}
             for i, a in enumerate(("a_0", "a_1")):
-                infos[a] = {"action_mask": np.array(case["masks"][i][0] if case["single"] else case["masks"][i])}
+                infos[a] = {"action_mask": as_mask(case["masks"][i][0] if case["single"] else case["masks"][i])}
         if case.get("korder") == "rev":          # caller-side key order differs from agent_ids (obs and infos differently)
             obs = dict(reversed(list(obs.items())))
             if infos is not None:
@@ -1390,7 +1517,14 @@ class C14(vlib.Driver):
             et = obs["error"].split(":")[0]
             return [Violation("raises", f"{fam}:raises:{et}:{self.site(case)}",
                               f"get_action raised instead of returning a legal action: {obs['error']}")]
-        return getattr(self, "oracle_" + fam.split("_")[0])(case, obs)
+        out = getattr(self, "oracle_" + fam.split("_")[0])(case, obs)
+        for n in obs.get("args_modified", []):
+            out.append(Violation("arguments", f"{fam}:argument-modified:{n}",
+                                 f"get_action wrote into the caller's `{n}` argument (compared with a deep copy taken before the call)"))
+        if obs.get("repeat_equal") is False:
+            out.append(Violation("repeat", f"{fam}:not-repeatable",
+                                 "the same call with the same scripted draws on the same agent returned a different action the second time"))
+        return out
 
     def site(self, case):
         fam = case["fam"]
@@ -1678,7 +1812,8 @@ class C14(vlib.Driver):
         fam = case["fam"]
         labs = [f"fam={fam}", f"obs={case.get('obs', 'vec')}", "single" if case.get("single") else "batched"]
         labs += ["history=" + "+".join(obs.get("hist_applied", case["hist"]))] if case.get("hist") else ["history=fresh"]
-        labs += [f"offset={case.get('offset', 0)}"]
+        labs += [f"offset={case.get('offset', 0)}", f"maskdtype={case.get('maskdtype', 'default')}"]
+        labs += [x for x in ("extreme", "twice") if case.get(x)] + ([f"log_std={case['log_std']}"] if case.get("log_std") is not None else [])
         labs += [f"wrapper={case.get('wrap', 'none')}", f"args={case.get('args', 'kw')}",
                  f"weights={'pinned' if case.get('pin', True) else 'random'}", f"key-order={case.get('korder', 'agent_ids')}",
                  f"latent={case.get('latent', 'default')}"]
